@@ -110,6 +110,18 @@ theorem finding_C02_quoted_variable_name :
     (⟨"V".toList, true⟩ : Ident).norm = (⟨"v".toList, false⟩ : Ident).norm ∧
     setKey ⟨"V".toList, true⟩ ≠ unsetKey ⟨"v".toList, false⟩ := by decide
 
+/-- **Raw-text commands** (`ALTER TABLE … MODIFY COLUMN … SET TAG …`, which sqlglot hands over unparsed): the code
+    looks for its keywords in the upper-cased text, so the decision is the same for every spelling — whereas a
+    case-sensitive search on the text as written would separate `set tag` from `SET TAG`. -/
+theorem C02_raw_command_invariant (a b : List Char) (h : upper a = upper b) : rawHasSetTag a = rawHasSetTag b := by
+  simp [rawHasSetTag, h]
+
+theorem C02_raw_command_case_sensitive_differs :
+    upper "modify column c set tag t = 'v'".toList = upper "MODIFY COLUMN C SET TAG T = 'V'".toList ∧
+    rawHasSetTag "modify column c set tag t = 'v'".toList = true ∧
+    rawHasSetTagCaseSensitive "modify column c set tag t = 'v'".toList = false ∧
+    rawHasSetTagCaseSensitive "MODIFY COLUMN C SET TAG T = 'V'".toList = true := by decide
+
 /-! non-vacuity -/
 def stmtA : Node := .node 1 [.kwFolded "schema".toList, .node 2 [.ident ⟨"db1".toList, false⟩, .ident ⟨"My S".toList, true⟩], .lit "x".toList]
 def stmtB : Node := .node 1 [.kwFolded "SCHEMA".toList, .node 2 [.ident ⟨"Db1".toList, false⟩, .ident ⟨"My S".toList, true⟩], .lit "x".toList]
